@@ -268,9 +268,11 @@ def _d_shuffle(x):
         return _ORIG["shuffle"](x)
     n = len(x)
     if run.shuffle_alts is not None:
-        alts = run.shuffle_alts(list(x))  # list of (arrangement, prob or None)
-        k = run.choose(len(alts), None if alts[0][1] is None else [a[1] for a in alts], "shuffle*")
-        x[:] = alts[k][0]
+        # check-supplied alternative generator: (count, get(k) -> arrangement); uniform weights,
+        # probabilities are not tracked for such points
+        count, get = run.shuffle_alts(list(x))
+        k = run.choose(count, None, "shuffle*")
+        x[:] = get(k)
         run.calls.append(("shuffle", list(x)))
         return None
     items = list(x)
